@@ -206,6 +206,25 @@ class Engine:
         return None
 
     def _global_const(self, q, g):
+        if g[0] == "StrDictLiteral":
+            # a module-level dict of string constants, read from the real source on every run
+            # (assumption listed with the contract: nothing mutates it at run time)
+            modname, nm = q.split(":")
+            tree = ModCtx.get(modname).tree
+            lit = None
+            for node in tree.body:
+                if isinstance(node, ast.Assign) and len(node.targets) == 1 and getattr(node.targets[0], "id", None) == nm:
+                    lit = node.value
+            if not isinstance(lit, ast.Dict) or not all(isinstance(x, ast.Constant) and isinstance(x.value, str) for x in lit.keys + lit.values):
+                raise Unsupported("%s is not a dict literal of string constants" % q)
+            dom = z3.K(z3.StringSort(), z3.BoolVal(False))
+            val = z3.K(z3.StringSort(), z3.StringVal(""))
+            for kx, vx in zip(lit.keys, lit.values):
+                dom = z3.Store(dom, z3.StringVal(kx.value), True)
+                val = z3.Store(val, z3.StringVal(kx.value), z3.StringVal(vx.value))
+            dv = ops.mk_dictv(STR, STR, dom, val)
+            dv._lit = [(kx.value, vx.value) for kx, vx in zip(lit.keys, lit.values)]
+            return dv
         ty = parse_ty(g[0])
         if ty.kind in ("opt", "tuple"):
             raise Unsupported("global of type %s" % ty)
@@ -542,7 +561,7 @@ class Engine:
                 yield st, V(BOUND, py=(base, attr))
                 return
             raise Unsupported("attribute %s.%s has no schema (line %d)" % (base.ty.name, attr, line))
-        if k in ("list", "dict", "set", "str", "bytes", "seq"):
+        if k in ("list", "dict", "set", "str", "bytes", "seq", "dictv"):
             yield st, V(BOUND, py=(base, attr))
             return
         if k == "none":
@@ -1832,6 +1851,8 @@ class Engine:
             st.ghost[idx_name] = vint(0)
         if source is not None and source[0] == "iter":
             st.ghost[idx_name] = vint(0)
+        entry_vals = [v for v in self.spec_env(st).values() if isinstance(v, V)]
+
         def prefix_axiom(stt, which, idx_term=None):
             """R6: unfolding instances of in_prefix for the sequence being iterated."""
             if source is None or source[0] != "seq" or source[1].t is None:
@@ -1841,6 +1862,26 @@ class Engine:
             es = sort_of(sq.ty.args[0])
             f = in_prefix_fn(es)
             kq = z3.Const("k!pfx", es)
+            from .speceval import fold_fn
+            for fname, fd in S.FOLDS.items():
+                if sort_of(fd["elem"]) != es:
+                    continue
+                ff = fold_fn(fname, fd)
+                a0 = z3.Const("a0!" + fname, sort_of(fd["acc"]))
+                # ground instances for the values the variables of the accumulator's type had on loop entry
+                # (what invariants of the form  x == fold(_s, _i, pre(x))  need), plus the general axiom
+                grounds = [v.t for v in entry_vals if v.ty == fd["acc"] and v.t is not None]
+                if which == "zero":
+                    stt.assume(z3.ForAll([a0], ff(sq.t, z3.IntVal(0), a0) == a0))
+                    for g0 in grounds:
+                        stt.assume(ff(sq.t, z3.IntVal(0), g0) == g0)
+                elif which == "step":
+                    def step_of(a):
+                        env = {"acc": V(fd["acc"], ff(sq.t, idx_term, a)), "e": V(sq.ty.args[0], sq.t[idx_term])}
+                        return coerce(SpecEval(stt, env, None, None, self).ev(ast.parse(fd["step"], mode="eval").body), fd["acc"]).t
+                    stt.assume(z3.ForAll([a0], ff(sq.t, idx_term + 1, a0) == step_of(a0), patterns=[ff(sq.t, idx_term + 1, a0)]))
+                    for g0 in grounds:
+                        stt.assume(ff(sq.t, idx_term + 1, g0) == step_of(g0))
             if which == "zero":
                 stt.assume(z3.ForAll([kq], z3.Not(f(sq.t, z3.IntVal(0), kq))))
             elif which == "step":
